@@ -253,6 +253,14 @@ def hash_shard(config, seed, n_examples, import_ctx="top", long_lengths=()):
             return
         n = draw(st.integers(0, 12))
         msg = [draw(elems()) for _ in range(n)]
+        bad_at = draw(st.sampled_from([None, None, None, 0, 1, 2, 3, 5, 6]))
+        if bad_at is not None:
+            # a history with a refusal in it: an earlier hash call was given a list with a plain int in it (refused with
+            # RuntimeError), the program caught that and hashes on
+            try:
+                ph.poseidon_hash([rt.PrivVal(k_ + 1) for k_ in range(bad_at)] + [7] + [rt.PrivVal(9)] * draw(st.integers(0, 2)))
+            except RuntimeError:
+                pass
         if which == "padding":
             case = {"config": config, "part": "padding", "msg": msg}
             hs = []
